@@ -204,6 +204,12 @@ func (aux *Aux) LoadForm() slip.Object {
 	return gdef
 }
 
+// nilHierarchy is the class precedence of nil, the one member of null. It is
+// what typep says of nil: a null, a symbol, a list and a sequence.
+var nilHierarchy = []slip.Symbol{
+	slip.Symbol("null"), slip.SymbolSymbol, slip.ListSymbol, slip.SequenceSymbol, slip.TrueSymbol,
+}
+
 func (aux *Aux) buildCacheMeth(args slip.List) *slip.Method {
 	var meth slip.Method
 	key := make([]string, aux.reqCnt)
@@ -220,7 +226,7 @@ func (aux *Aux) buildCacheMeth(args slip.List) *slip.Method {
 func (aux *Aux) collectMethods(meth *slip.Method, key []string, ki int, args slip.List) {
 	var hier []slip.Symbol
 	if args[ki] == nil {
-		hier = []slip.Symbol{slip.TrueSymbol}
+		hier = nilHierarchy
 	} else {
 		hier = args[ki].Hierarchy()
 	}
@@ -272,7 +278,7 @@ func (aux *Aux) compMethList(args slip.List) slip.List {
 func (aux *Aux) compMeths(mc *methComp, key []string, ki int, args slip.List) {
 	var hier []slip.Symbol
 	if args[ki] == nil {
-		hier = []slip.Symbol{slip.TrueSymbol}
+		hier = nilHierarchy
 	} else {
 		hier = args[ki].Hierarchy()
 	}
